@@ -23,7 +23,7 @@ func isAuxClass(n string) bool {
 		return false
 	}
 	k := n[i+1:]
-	for _, p := range []string{"nil:", "index:", "divzero", "frame:", "slice:", "shift:", "makeslice", "nilmap", "unsafe:", "unreachable:"} {
+	for _, p := range []string{"nil:", "index:", "divzero", "frame:", "slice:", "shift:", "makeslice", "nilmap", "unsafe:", "unreachable:", "smoke:"} {
 		if strings.HasPrefix(k, p) {
 			return true
 		}
@@ -337,7 +337,7 @@ func checkProperty(repo, verif, prop, tier string, seed, timeout int, writeEvide
 	replayed := map[*Obl]string{}
 	for _, r := range results {
 		for _, o := range r.Obls {
-			if o.Kind == "assert" && o.Status == "undecided" && lock[shortObl(baseName(o.Name))] {
+			if o.Kind == "assert" && o.Status == "undecided" && !lock["?"+shortObl(baseName(o.Name))] {
 				// first see whether a candidate input already fails on the real code
 				if rp, ok := makeReplay(e, verif, prop, r, o); ok {
 					o.Status = "refuted"
@@ -403,7 +403,17 @@ func checkProperty(repo, verif, prop, tier string, seed, timeout int, writeEvide
 			if o.Kind != "assert" {
 				smokeTotal++
 				if o.Status == "vacuous" {
-					cr.hardErrors = append(cr.hardErrors, "vacuity: "+o.Name+" (the assumptions at this point are contradictory)")
+					if scls := shortObl(baseName(o.Name)); lock[scls] {
+						// this program point was reachable under the contracts' assumptions on the unchanged
+						// tree: the code now contradicts something the contracts assume there (an invariant
+						// or a callee postcondition no longer fits), and everything after it would be
+						// discharged vacuously
+						o.Output = "the assumptions at this program point are contradictory on this tree (they were satisfiable on the unchanged tree); obligations after it are vacuous"
+						rp := writeReplayStub(verif, prop, o, "reachable program point became unreachable under the contracts' assumptions")
+						cr.violations = append(cr.violations, fmt.Sprintf("VIOLATION property=%s replay=%s no-failing-input-found", prop, rp))
+					} else {
+						cr.hardErrors = append(cr.hardErrors, "vacuity: "+o.Name+" (the assumptions at this point are contradictory)")
+					}
 				} else {
 					smokeOK++
 				}
@@ -418,7 +428,11 @@ func checkProperty(repo, verif, prop, tier string, seed, timeout int, writeEvide
 			// release of a lock that is not held) do not exist on the unchanged tree; one that cannot be
 			// discharged is reported even though no lock entry exists for it
 			lockDiscipline := strings.Contains(o.Name, "#lock:")
-			if o.Status == "undecided" && !lock[cls] && !lockDiscipline && isKnown(o.Name) == nil {
+			// "?class" entries of the lock file: obligations that were already undecided on the unchanged
+			// tree (contracts in progress).  Every other obligation is claimed: the ones discharged on the
+			// unchanged tree (locked) and the ones a change to the code newly introduces.
+			wip := lock["?"+cls]
+			if o.Status == "undecided" && wip && !lockDiscipline && isKnown(o.Name) == nil {
 				cr.undecided = append(cr.undecided, shortObl(o.Name)+" ("+o.Status+")")
 				continue
 			}
@@ -453,7 +467,7 @@ func checkProperty(repo, verif, prop, tier string, seed, timeout int, writeEvide
 					cr.violations = append(cr.violations, fmt.Sprintf("VIOLATION property=%s replay=%s no-failing-input-found", prop, rp))
 				}
 			default:
-				if lock[cls] || lockDiscipline {
+				if !wip || lockDiscipline {
 					// no model from the solvers: a candidate input from the quantifier-free weakening
 					// may still replay on the real code
 					o.Output = "locked obligation no longer discharges (" + o.Status + ")\n" + o.Output
@@ -475,6 +489,9 @@ func checkProperty(repo, verif, prop, tier string, seed, timeout int, writeEvide
 	// locked classes that were not generated at all
 	var missing []string
 	for cls := range lock {
+		if strings.HasPrefix(cls, "?") {
+			continue
+		}
 		if !classSeen[cls] && !isAuxClass(cls) {
 			missing = append(missing, cls)
 		}
@@ -661,6 +678,10 @@ func writeLock(repo, verif string, props []string, timeout int) error {
 		for _, r := range results {
 			for _, o := range r.Obls {
 				if o.Kind != "assert" {
+					// reachability (smoke) points that are satisfiable on the unchanged tree
+					if (o.Kind == "smoke" || o.Kind == "smoke-path") && strings.HasPrefix(o.Status, "ok-") {
+						classes[shortObl(baseName(o.Name))] = true
+					}
 					continue
 				}
 				cls := shortObl(baseName(o.Name))
@@ -679,6 +700,9 @@ func writeLock(repo, verif string, props []string, timeout int) error {
 				old[p][c] = true
 				n++
 			}
+		}
+		for c := range bad {
+			old[p]["?"+c] = true // undecided (or too slow) on the unchanged tree: work in progress, not claimed
 		}
 		fmt.Printf("%s: %d obligation classes locked\n", p, n)
 	}
